@@ -1256,7 +1256,7 @@ pub fn static_eof_strategy() -> BoxedStrategy<StaticEofCase> {
 
 #[derive(Clone, Debug, Hash, Serialize, Deserialize)]
 pub struct EofCollisionCase {
-    /// bit0 code, bit1 nonce, bit2 storage
+    /// bit0 code, bit1 nonce, bit2 storage, bit3 zero balance
     pub target: u8,
     /// 0 EOF create transaction, 1 EOFCREATE from a factory
     pub kind: u8,
@@ -1339,7 +1339,7 @@ pub fn c21_eof_case(c: &EofCollisionCase) -> CaseResult {
         pre.insert(
             target,
             r::Account {
-                balance: r::U256::from(3u64),
+                balance: r::U256::from(if c.target & 8 != 0 && c.target != 8 { 0u64 } else { 3 }),
                 nonce: if has_nonce { 1 } else { 0 },
                 code: if has_code { vec![0x00] } else { vec![] },
                 storage: if has_storage { [(r::U256::from(5u64), r::U256::from(6u64))].into_iter().collect() } else { Default::default() },
